@@ -29,15 +29,17 @@ def _stub_modules():
     api = types.ModuleType('compyle.api')
 
     def declare(t, n=1):
-        if isinstance(t, str) and t.startswith('matrix'):
-            dims = t[t.index('(') + 1:t.rindex(')')].strip('() ')
-            parts = [int(x) for x in dims.split(',') if x.strip()]
-            if len(parts) == 1:
-                return [0.0] * parts[0]
-            return [[0.0] * parts[1] for _ in range(parts[0])]
+        def one():
+            if isinstance(t, str) and t.startswith('matrix'):
+                dims = t[t.index('(') + 1:t.rindex(')')].strip('() ')
+                parts = [int(x) for x in dims.split(',') if x.strip()]
+                if len(parts) == 1:
+                    return [0.0] * parts[0]
+                return [[0.0] * parts[1] for _ in range(parts[0])]
+            return 0
         if n > 1:
-            return [0] * n
-        return 0
+            return [one() for _ in range(n)]
+        return one()
     api.declare = declare
     comp.api = api
     types_m = types.ModuleType('compyle.types')
